@@ -118,4 +118,39 @@ RoundTrippable(items) ==
             sepOK(c) == ~IsDigit(c) /\ (IsAlnum(c) => numeric)
         IN  items[i].s1 # -1 /\ sepOK(items[i].s1) /\ (items[i].s2 = -1 \/ sepOK(items[i].s2))
   /\ (HasTok(items, tT) => items[Len(items)].tok = tT)
+
+(* Parsing with an all-numeric format (%Y %m %d %H %M %S %f %j, each at most once, a non-alphanumeric   *)
+(* separator after every item but the last): the sentence is a digit run per item followed by the item's *)
+(* separators.  Used for the second sentence of C13: a well-formed sentence whose fields are out of range  *)
+(* must be an error.                                                                                      *)
+NumericTok(t) == t \in {tY, tm, td, tH, tM, tS, tf, tj}
+NumFormat(items) ==
+  /\ Len(items) >= 1 /\ OnceEach(items)
+  /\ \A i \in 1..Len(items) : NumericTok(items[i].tok) /\ ~items[i].opt
+  /\ \A i \in 1..(Len(items) - 1) : items[i].s1 # -1 /\ ~IsAlnum(items[i].s1) /\ (items[i].s2 = -1 \/ ~IsAlnum(items[i].s2))
+  /\ items[Len(items)].s1 = -1
+RECURSIVE MatchNumFrom(_, _, _, _)
+(* values read so far in acc; returns <<TRUE, values>> or <<FALSE, <<>>>> *)
+MatchNumFrom(items, s, k, i) ==
+  LET n == DigitRun(s, i) IN
+    IF n < 1 \/ n > 9 THEN <<FALSE, <<>>>>
+    ELSE IF k = Len(items)
+         THEN IF i + n - 1 = Len(s) THEN <<TRUE, <<NatAt(s, i, n)>>>> ELSE <<FALSE, <<>>>>
+         ELSE LET j  == i + n
+                  w  == IF items[k].s2 = -1 THEN 1 ELSE 2
+                  ok == At(s, j) = items[k].s1 /\ (items[k].s2 = -1 \/ At(s, j + 1) = items[k].s2)
+                  rest == MatchNumFrom(items, s, k + 1, j + w)
+              IN  IF ok /\ rest[1] THEN <<TRUE, <<NatAt(s, i, n)>> \o rest[2]>> ELSE <<FALSE, <<>>>>
+MatchNum(items, s) == MatchNumFrom(items, Trim(s), 1, 1)
+FieldOf(items, vals, t, dflt) == IF HasTok(items, t) THEN vals[CHOOSE i \in 1..Len(items) : items[i].tok = t] ELSE dflt
+(* some field is out of its range: month 0 / 13, day 0 / beyond the month, hour 25, minute 60, second 61, day of year 367 *)
+NumMustReject(items, vals) ==
+  LET y == FieldOf(items, vals, tY, 2000)  m == FieldOf(items, vals, tm, 1)  dd == FieldOf(items, vals, td, 1)
+      hh == FieldOf(items, vals, tH, 0)  mi == FieldOf(items, vals, tM, 0)  ss == FieldOf(items, vals, tS, 0)
+      j == FieldOf(items, vals, tj, 1)
+  IN  \/ (HasTok(items, tm) /\ (m = 0 \/ m > 12))
+      \/ (HasTok(items, td) /\ (dd = 0 \/ dd > 31))
+      \/ (HasTok(items, td) /\ HasTok(items, tm) /\ HasTok(items, tY) /\ m \in 1..12 /\ dd > C!DaysInMonth(y, m)
+             /\ ~(m = 2 /\ dd \in {30, 31} /\ C!IsLeap(y)))          \* known finding F11 is judged where it is reported
+      \/ hh > 24 \/ mi > 59 \/ ss > 60 \/ j > 366
 =============================================================================
